@@ -28,7 +28,7 @@ from vf.core import Case, Ob
 from vf import lib, sym
 from vf.env import shadow_builtins, NpProxy
 from vf.sym import S, SI, SB
-from vf.timeidx import sym_int, near_time, as_int, all_of, any_of
+from vf.timeidx import time_np_overrides, sym_int, near_time, as_int, all_of, any_of
 from vf.poly import ob_eq_poly
 
 ASSUMPTIONS = [
@@ -38,7 +38,7 @@ ASSUMPTIONS = [
 ]
 
 CT = "oqupy.control"
-ENV_CT = {"noconj": True, "extra": dict(shadow_builtins(CT, ("isinstance",)), **{CT + ".np": NpProxy()})}
+ENV_CT = {"noconj": True, "extra": dict(shadow_builtins(CT, ("isinstance",)), **{CT + ".np": NpProxy(time_np_overrides())})}
 
 
 def _quiet():
@@ -233,8 +233,8 @@ class H2(Case):
         obs = [Ob.holds("number of recorded states", len(states) == N + 1, key="count")]
         for n in range(min(N + 1, len(states))):
             exp = lib.oracle_pt_dynamics(rho0, envs, P1, P2, n, pre, post).reshape(d, d)
-            obs.append(Ob.eq("state %d == evolution with each control applied once, pre before / post after the record" % n,
-                             states[n], exp, key="state"))
+            obs.append(ob_eq_poly(inp, "state %d == evolution with each control applied once, pre before / post after the record" % n,
+                                  states[n], exp, key="state"))
         return obs
 
 
